@@ -32,6 +32,7 @@ type FuncReport struct {
 	ParamOrder   []string
 	ResultSyms   []string
 	fnObj        *ssa.Function
+	Skipped      int
 	fc           *FuncContract
 }
 
